@@ -324,7 +324,7 @@ def typeof(e, env, sc):
             raise IllTyped('undetermined')
         return t
     if k == 'call':
-        t = conc(unify(conc(typeof(e[2], env, sc)), conc(typeof(e[3], env, sc))))
+        t = conc(unify(typeof(e[2], env, sc), typeof(e[3], env, sc)))
         if t not in NUM_T + ('bool', 'QString'):
             raise IllTyped('min/max on ' + t)
         return t
@@ -342,7 +342,8 @@ def typeof(e, env, sc):
     if k == 'arg':
         if conc(typeof(e[1], env, sc)) != 'QString':
             raise IllTyped('arg on non-string')
-        typeof(e[2], env, sc)
+        if conc(typeof(e[2], env, sc)) not in NUM_T + ('QString',):
+            raise IllTyped('QString::arg takes a number or a string')
         return 'QString'
     raise IllTyped(str(e))
 
